@@ -85,6 +85,8 @@ class StepGen(c03.Gen):
     thread's file would hold if the process were killed right there and the recorder shut down"""
 
     def drain(self):
+        if 1 in self.stopped:
+            return            # the random prefix already ended the thread: nothing to step
         if 1 not in self.prepared:
             self.prepared.add(1)
             self.ops.append(("P 1 prepare", ["P 1 prepare"]))
@@ -245,7 +247,7 @@ def run(ctx):
     if not exe:
         C.violation(ctx, "build", {"kind": "harness-build-failed", "log": log[-3000:]}, True)
         return C.finish(ctx)
-    ncase = 70 if ctx.tier == "quick" else 1000
+    ncase = 40 if ctx.tier == "quick" else 1000
     cases = []
     for i in range(ncase):
         rng = ctx.rng
@@ -302,7 +304,7 @@ def run(ctx):
             }, no_failing_input=not mon)
 
     # ---- kill at every instruction of one record_trace_data() call (ptrace single-step) ----------------
-    nstep = 14 if ctx.tier == "quick" else 200
+    nstep = 10 if ctx.tier == "quick" else 200
     scases = []
     for i in range(nstep):
         rng = ctx.rng
@@ -420,7 +422,7 @@ def run(ctx):
     if not okm:
         C.violation(ctx, "make", {"kind": "snapshot-build-failed", "log": mlog[-3000:]}, True)
     else:
-        nprog = 2 if ctx.tier == "quick" else 10
+        nprog = 1 if ctx.tier == "quick" else 6
         jobs = []
         for i in range(nprog):
             rng = ctx.rng
@@ -439,8 +441,8 @@ def run(ctx):
             subprocess.run([os.path.join(d, "p"), gtn], timeout=60)
             nev = [g["n"] for g in c03.read_ground_truth(gtn, nt)]
             for mode in MODES:
-                ks = list(range(1, 7 if ctx.tier == "quick" else 40))
-                for _ in range(3 if ctx.tier == "quick" else 12):
+                ks = list(range(1, 6 if ctx.tier == "quick" else 31))
+                for _ in range(2 if ctx.tier == "quick" else 8):
                     ks.append(rng.randint(7, 400))
                 for k in ks:
                     killer = rng.randrange(nt)
@@ -498,7 +500,7 @@ def run(ctx):
                 "calls single-stepped under ptrace, the would-be file after a kill computed after every instruction "
                 "and the sequence of distinct results compared with the model's micro-steps; crash handler: "
                 "SIGABRT and SIGSEGV raised in-process at call depths %s with --max-stack %d; e2e: every "
-                "termination mode x k-th event (k = 1..6 and random up to 400) x terminating thread, "
+                "termination mode x k-th event (k = 1..5 and random up to 400; thorough: 1..30 and 8 random, 6 programs) x terminating thread, "
                 "2-3 threads, -pg / -finstrument-functions / -mfentry, under the real recorder" % (
                     len(res), len(sres), depths, maxstack),
         "h1_schedules": len(res), "h1_steps_compared": nsteps, "h1_stop_kinds": hows, "h1_flushes_of_unended_buffers": flushes,
